@@ -1117,3 +1117,61 @@ def find_result_rule(ctx, rid, scope, minimum):
     if n < minimum:
         from facts import AnalysisBroken
         raise AnalysisBroken('%s: only %d uses of a search result as position found' % (rid, n))
+
+
+def getline_result_rule(ctx, rid, scope, minimum):
+    """std::getline leaves the target string as it was when the stream is exhausted or failed.  A caller that reads token by
+    token into a variable that outlives the call has to look at the result (if / while / !): with the result discarded the
+    previous token is taken once more at the end of the input."""
+    fb = ctx.fb
+    seen = set()
+    n = 0
+    for fn in fb.functions:
+        if not scope(fn) or not fn.nodes or (fn.name, fn.sig) in seen:
+            continue
+        seen.add((fn.name, fn.sig))
+        for c in fn.calls('getline'):
+            v = fn.nodes[c]
+            if not (v.get('callee') or '').startswith('std::getline') or len(v.get('args', [])) < 2:
+                continue
+            x = c
+            discarded = None
+            while discarded is None:
+                par = fn.parent(x)
+                if par is None:
+                    discarded = True
+                    break
+                pv = fn.nodes[par]
+                k = pv['k']
+                if k in ('ImplicitCastExpr', 'ExprWithCleanups', 'ParenExpr', 'CXXBindTemporaryExpr', 'MaterializeTemporaryExpr', 'CXXFunctionalCastExpr', 'CStyleCastExpr') and pv.get('ck') != 'ToVoid':
+                    if k == 'ImplicitCastExpr' and pv.get('ck') in ('UserDefinedConversion',):
+                        discarded = False
+                        break
+                    x = par
+                    continue
+                if k in ('CompoundStmt', 'CaseStmt', 'DefaultStmt', 'LabelStmt') or pv.get('ck') == 'ToVoid':
+                    discarded = True
+                elif k in ('IfStmt', 'WhileStmt', 'ForStmt', 'DoStmt', 'CXXForRangeStmt'):
+                    discarded = pv.get('cond') != x
+                else:
+                    discarded = False
+            tgt = fn.nodes[fn.strip(v['args'][1], casts=True)]
+            fresh = False
+            if discarded and tgt.get('k') == 'DeclRefExpr' and tgt.get('rk') == 'local':
+                # declared in the statement list the call stands in (a fresh string per pass): nothing stale to pick up
+                par = fn.parent(x)
+                if par is not None and fn.nodes[par]['k'] == 'CompoundStmt':
+                    for sib in fn.nodes[par].get('ch', []):
+                        if sib == x:
+                            break
+                        if fn.nodes[sib]['k'] == 'DeclStmt' and any(d.get('decl') == tgt.get('decl') and d.get('init') is None
+                                                                    for d in fn.nodes[sib].get('decls', [])):
+                            fresh = True
+            n += 1
+            ctx.touch(fn)
+            ok = not discarded or fresh
+            ctx.ob(rid, fn, c, ok, 'getline into %s in %s' % (fn.key(v['args'][1]), fn.name.split('::', 1)[-1]),
+                   'the result is looked at (or the target is fresh): %s' % ok)
+    if n < minimum:
+        from facts import AnalysisBroken
+        raise AnalysisBroken('%s: only %d getline calls found' % (rid, n))
